@@ -609,3 +609,37 @@ Proof.
   - rewrite R_flags_other by lia. apply R_setR_same.
   - intros i Hi N1 N2. rewrite R_flags_other by lia. apply R_setR_other; lia.
 Qed.
+
+(* ---- arithmetic right shifts (ARSW3 / ARSH3 / ARSB3), register destination ---- *)
+Definition ars_value (t : dtype) (a n : Z) : Z :=
+  match t with
+  | DWord => w32 (Z.shiftr (s32 a) n) | DUWord => Z.shiftr a n
+  | DHalf => w32 (Z.shiftr (s16 a) n) | DUHalf => Z.shiftr (w16 a) n
+  | DByte => Z.shiftr (w8 a) n | DSByte => w32 (Z.shiftr (s8 a) n)
+  | DNone => 0
+  end.
+
+Lemma exec_ars ir m : iopcode ir = 196 \/ iopcode ir = 198 \/ iopcode ir = 199 ->
+  exec ir m = bind (read_op ir 1 m) (fun a m => bind (read_op ir 0 m) (fun b0 m =>
+    let result := ars_value (data_type (op0 ir)) a (Z.land b0 31) in
+    bind (write_op ir 2 result m) (fun _ m =>
+      Ok (ilen ir) (set_v false (set_c false (set_nz_flags result (op2 ir) m)))))).
+Proof. intros [H|[H|H]]; unfold exec; rewrite H; reflexivity. Qed.
+
+Theorem ars_final ir m cnt v r :
+  iopcode ir = 196 \/ iopcode ir = 198 \/ iopcode ir = 199 ->
+  read_op ir 0 m = Ok cnt m -> read_op ir 1 m = Ok v m ->
+  omode (get_op ir 2) = MRegister -> oreg (get_op ir 2) = Some r -> 0 <= r <= 10 -> otype (get_op ir 2) <> DNone ->
+  let t := otype (get_op ir 2) in
+  let res := ars_value (data_type (op0 ir)) v (Z.land cnt 31) in
+  exists m', exec ir m = Ok (ilen ir) m'
+    /\ word_outcome m m' r res (Z.testbit res (sign_bit t)) (trunc_to t res =? 0) false false.
+Proof.
+  intros Ho R0 R1 Hm Hr Hr10 Ht t res. rewrite (exec_ars ir m Ho). rewrite R1. cbn [bind]. rewrite R0. cbn [bind].
+  cbv zeta. fold res. rewrite (write_reg ir 2 r res m Hm Hr). cbn [bind]. eexists. split; [reflexivity|].
+  change (op2 ir) with (get_op ir 2). rewrite set_nz_flags_sized by exact Ht. fold t.
+  destruct (nzvc_after (Z.testbit res (sign_bit t)) (trunc_to t res =? 0) false false (setR m r res)) as [A [B [C D]]].
+  constructor; auto.
+  - rewrite R_flags_other by lia. apply R_setR_same.
+  - intros i Hi N1 N2. rewrite R_flags_other by lia. apply R_setR_other; lia.
+Qed.
